@@ -8,8 +8,11 @@ case : {"dim":2|3, "npatch":2|3, "mapped":bool, "conn":[[[p,axis,ext],[q,axis,ex
         "form":"bilinear"|"linear", "funcs":{name:{"vec":bool}}, "trials":[..], "tests":[..],
         "terms":[{"iface":k|"all","expr":G}], "volume":null|"mass", "seed":n}
 G    : {"k":"num","p","q"} {"k":"const","name"} {"k":"coord","i"} {"k":"fn","name"} {"k":"nn"}
-       {"k":"add","a":[..]} {"k":"mul","a":[..]} {"k":"op","name":jump|avg|minus|plus|Dn|grad|div|dot,"a":[..]}
-result: see run_case.
+       {"k":"add","a":[..]} {"k":"mul","a":[..]} {"k":"pow","b":G,"e":n}
+       {"k":"op","name":jump|avg|minus|plus|Dn|grad|div|dot,"a":[..]}
+       The argument of jump / avg / minus / plus may be COMPOUND (dot(grad(w), nn), dot(F, nn), f*w, f**2, div(grad(w))):
+       by definition the restriction acts on every function and on the normal vector inside (class Lower).
+result: see run_case (run_case_explained adds "explained_by").
 """
 import json
 import random
@@ -177,6 +180,8 @@ class World:
             for a in g["a"][1:]:
                 r = r * self.build(a)
             return r
+        if k == "pow":
+            return self.build(g["b"]) ** int(g["e"])
         if k == "op":
             ops = {"jump": jump, "avg": avg, "minus": minus, "plus": plus, "Dn": Dn, "grad": grad, "div": div,
                    "dot": dot}
@@ -796,12 +801,98 @@ def numeric_oracle(case, w, out, blind=(), flip_plus=True):
     return res
 
 
+# --------------------------------------------------------------------------- compound restrictions, pushed inward
+RESTR = ("jump", "avg", "minus", "plus")
+
+
+def g_simple_arg(x):
+    """arguments of jump / avg / minus / plus that the library has always split: w, Dn(w), grad(w), div(w), c*w"""
+    k = x["k"]
+    if k in ("fn", "num", "const"):
+        return True
+    if k == "op" and x["name"] in ("Dn", "grad", "div"):
+        return x["a"][0]["k"] == "fn"
+    if k == "mul":
+        return all(a["k"] in ("num", "const") or g_simple_arg(a) for a in x["a"]) and \
+            sum(1 for a in x["a"] if a["k"] not in ("num", "const")) <= 1
+    return False
+
+
+def g_has_compound(g):
+    if g["k"] == "op" and g["name"] in RESTR and not g_simple_arg(g["a"][0]):
+        return True
+    kids = list(g.get("a", [])) + ([g["b"]] if g["k"] == "pow" else [])
+    return any(g_has_compound(a) for a in kids)
+
+
+def g_push(side, x):
+    """minus(x) / plus(x) written with restricted functions and the restricted normal only (the definition)"""
+    k = x["k"]
+    if k in ("fn", "nn"):
+        return {"k": "op", "name": side, "a": [x]}
+    if k in ("num", "const", "coord"):
+        return x
+    if k in ("add", "mul"):
+        return {"k": k, "a": [g_push(side, a) for a in x["a"]]}
+    if k == "pow":
+        return {"k": "pow", "b": g_push(side, x["b"]), "e": x["e"]}
+    if k == "op" and x["name"] == "Dn":
+        return {"k": "op", "name": side, "a": [x]}
+    if k == "op" and x["name"] in ("dot", "grad", "div"):
+        return {"k": "op", "name": x["name"], "a": [g_push(side, a) for a in x["a"]]}
+    raise Unsupported("push " + json.dumps(x)[:80])
+
+
+def g_push_all(g):
+    """every compound restriction of g replaced by its definition on the atoms"""
+    k = g["k"]
+    if k == "op" and g["name"] in RESTR and not g_simple_arg(g["a"][0]):
+        x = g["a"][0]
+        if g["name"] in ("minus", "plus"):
+            return g_push(g["name"], x)
+        m, p = g_push("minus", x), g_push("plus", x)
+        if g["name"] == "jump":
+            return {"k": "add", "a": [m, {"k": "mul", "a": [{"k": "num", "p": -1, "q": 1}, p]}]}
+        return {"k": "mul", "a": [{"k": "num", "p": 1, "q": 2}, {"k": "add", "a": [m, p]}]}
+    if k in ("add", "mul", "op"):
+        return dict(g, a=[g_push_all(a) for a in g["a"]])
+    if k == "pow":
+        return dict(g, b=g_push_all(g["b"]))
+    return g
+
+
+def failed(r):
+    if "crash" in r:
+        return True
+    if "err" in r:
+        return r["err"]["stage"] in ("TerminalExpr", "serialise")
+    return (r.get("oracle") or {}).get("ok") is False
+
+
+def run_case_explained(case):
+    """run_case, and when the case fails and contains the restriction of a compound expression: does the SAME form with
+    every such restriction written out on the atoms pass?  (then nothing else is wrong: `compound-pushed-inward`)"""
+    r = run_case(case)
+    r["compound"] = any(g_has_compound(t["expr"]) for t in case["terms"])
+    if r["compound"] and failed(r):
+        try:
+            alt = dict(case, terms=[dict(t, expr=g_push_all(t["expr"])) for t in case["terms"]])
+            r2 = run_case(alt)
+            ok = not failed(r2) and "err" not in r2 and (r2.get("oracle") or {}).get("ok") is True
+        except Exception:  # noqa
+            ok = False
+        r.setdefault("explained_by", {})["compound-pushed-inward"] = bool(ok)
+    if (r.get("oracle") or {}).get("explained_by"):
+        r.setdefault("explained_by", {}).update(r["oracle"]["explained_by"])
+    return r
+
+
 def main():
     payload = json.load(open(sys.argv[1]))
     res = []
     for case in payload["cases"]:
         try:
-            res.append(run_case(case))
+            res.append(run_case_explained(case))
         except Unsupported as e:
             res.append({"err": {"stage": "setup", "kind": "unsupported-node", "msg": str(e)}})
         except Exception:  # noqa
